@@ -209,7 +209,15 @@ ReadSeq(toks, p, ph, cl, acc) ==
 ReadWith(s, ph) ==
   LET lx == Tokenize(s) IN
     IF lx.st = "unspec" THEN RR("unspec", NilV, 0, lx.why)
-    ELSE IF lx.st = "lexerr" THEN RR("lexerr", NilV, 0, lx.why)
+    ELSE IF lx.st = "lexerr" THEN
+      \* the text stops being a token sequence (a string left open, a bad escape).  When the tokens BEFORE that point
+      \* already hold a stray closer, or a complete expression (so that whatever follows is a second one), the text is
+      \* malformed whatever the rest is; otherwise the oracle only says "not a token sequence"
+      IF lx.toks = <<>> THEN RR("lexerr", NilV, 0, lx.why)
+      ELSE LET r == ReadForm(lx.toks, 1, ph) IN
+        IF r.st = "malformed" /\ r.closer = "stray" THEN RR("malformed", NilV, r.p, "stray")
+        ELSE IF r.st = "ok" THEN RR("malformed", NilV, r.p, "trailing")
+        ELSE RR("lexerr", NilV, 0, lx.why)
     ELSE IF lx.toks = <<>> THEN RR("empty", NilV, 0, "")
     ELSE LET r == ReadForm(lx.toks, 1, ph) IN
       IF r.st = "ok" /\ r.p <= Len(lx.toks) THEN RR("malformed", NilV, r.p, "trailing") ELSE r
